@@ -56,6 +56,27 @@ CHECKS = [
         "threads contend through the lock file as processes do; fairness for termination.",
         "machine-checked proof (Coq invariant over an LTS) + trace correspondence on the real lock/tile files",
         "DESIGN.md section 5, C10"),
+    chk("C11",
+        "Coq proof over Q (pi an arbitrary positive rational, the frame rotation an oracle argument) for all six sampler "
+        "variants, all nx, ny >= 1 and all rational lon/lat: indices in range, the returned cell (from the documented edge and "
+        "direction) contains the normalised point, interior points get exactly their cell, 2pi-periodicity. Tie to /repo: the "
+        "six real samplers on maps of 1-40 px per axis, model evaluated on the exact rationals of the doubles with a 1e-9 px "
+        "rounding-tie margin; shape and indexing checked dynamically; astropy rotations sanity-checked against IAU matrices.",
+        "Float rounding is outside the model (margin); the Galactic/ecliptic rotations are astropy's (oracle); the ecliptic "
+        "layout is as coded (longitude 0 on the seam; the statement is silent).",
+        "machine-checked proof (Coq, rational arithmetic) + vm_compute correspondence on exact rationals of doubles",
+        "DESIGN.md section 5, C11"),
+    chk("C17",
+        "Coq proof over a string-level model of tile paths and WTML URL templates: template expansion = written relative "
+        "path, path/URL injectivity (both schemes, all formats, all depths; decimal rendering injective), FileType = "
+        "extension, TileLevels = deepest populated layer per workflow, and returned description = WTML along every history "
+        "of auto-tiler calls (fresh, repeated, override) by induction over histories. Tie to /repo: PyramidIO.tile_path and "
+        "Builder fields against the model for random positions to depth 30; end-to-end study / all-sky / tile_fits (TAN, "
+        "TOAST) / pipeline workflows on tiny inputs with every file mapped back through the WTML Url; tile_fits along every "
+        "history of length <= 3.",
+        "HiPS workflow excluded (needs Java and a download). WWTL and multi-TAN CLI share the Builder path and are not run.",
+        "machine-checked proof (Coq, string model + history induction) + vm_compute correspondence incl. end-to-end workflows",
+        "DESIGN.md section 5, C17"),
     chk("C19",
         "The faithful LTS models of the current code refute the property (Coq theorems c19_visit_returns_normally_refuted, "
         "c19_visit_hangs_refuted/deadlock, c19_walk_hangs_refuted, each a concrete schedule evaluated by the kernel); the "
